@@ -41,8 +41,8 @@ def shm(chk, name):
 
 # --------------------------------------------------------------------------- part 1: case sets
 
-PLAN_NAMES = {"quick": ["det1", "det2", "det3", "two2s", "three2core"],
-              "thorough": ["det1", "det2", "det3", "one4", "two2", "two3s", "three2", "three2all"]}
+PLAN_NAMES = {"quick": ["det1", "det2", "det3", "wellformed3", "two2s", "three2core"],
+              "thorough": ["det1", "det2", "det3", "wellformed3", "one4", "two2", "two3s", "three2", "three2all", "wellformed3deep"]}
 
 
 def machine_runs(thorough):
